@@ -83,7 +83,8 @@ def run(ctx):
         raise vf.EngineError("TLAPS did not prove spec/proofs/Brent_Proof.tla:\n" + outq[-2000:])
     ctx.notes.append("TLAPS: all %d obligations of proofs/Brent_Proof.tla proved (Brent's bookkeeping keeps x in a never-growing bracket, x = the better of x and u, values ordered; for every position and value)" % nobq)
     for mode, module, marker, label in (("bracket", "Trace_Bracket", '"BStart"', "bracketing phase (hook Verif_Bracket)"),
-                                        ("findmin", "Trace_FindMin", '"MStart"', "Find_Minimum/Find_Maximum, whole executions")):
+                                        ("findmin", "Trace_FindMin", '"MStart"', "Find_Minimum/Find_Maximum, whole executions"),
+                                        ("nmtrace", "Trace_NM", '"NStart"', "Minimization::minimize on arbitrary objectives, whole executions")):
         btrace = os.path.join(ctx.work, mode + ".ndjson")
         rc, o, err = vf.run_exe([exe, mode, str(ctx.seed), ctx.tier, btrace], timeout=1500)
         bd = [l for l in err.splitlines() if l.startswith("VERIF-DIED")]
@@ -120,7 +121,7 @@ def run(ctx):
             start = gi + 1
         ctx.cov["traces_validated_against_impl"] += len(groups) - nrej
         ctx.cov["trace_events"] += len(bl)
-        ctx.notes.append("%s: %d recorded executions (%d evaluations) validated against spec/%s.tla, %d rejected" % (label, len(groups), sum(1 for l in bl if '"BEval"' in l), module, nrej))
+        ctx.notes.append("%s: %d recorded executions (%d evaluations) validated against spec/%s.tla, %d rejected" % (label, len(groups), sum(1 for l in bl if '"BEval"' in l or '"NEval"' in l), module, nrej))
     if not ctx.violations:
         import re as _re
         e = {"TRACE": trace}
